@@ -532,7 +532,7 @@ pub fn run(run: &Run) {
                         let p = PROFS[(splitmix(&mut seed) % 4) as usize];
                         let c = pool_chars[(splitmix(&mut seed) % pool_chars.len() as u64) as usize];
                         let s = if splitmix(&mut seed) % 3 == 0 { format!("a{c}") } else { c.to_string() };
-                        let want = imp_enforce(p, &s);
+                        let want = guard(|| imp_enforce(p, &s)).unwrap_or_else(|pn| Ok(format!("<<panic: {pn}>>")));
                         (p, s, want)
                     })
                     .collect()
@@ -543,7 +543,7 @@ pub fn run(run: &Run) {
                 let mut calls = 0u64;
                 for _ in 0..rounds {
                     for (p, s, want) in set {
-                        let got = imp_enforce(*p, s);
+                        let got = guard(|| imp_enforce(*p, s)).unwrap_or_else(|pn| Ok(format!("<<panic: {pn}>>")));
                         calls += 1;
                         if got != *want {
                             let mut b = bad.lock().unwrap();
@@ -600,7 +600,7 @@ pub fn run(run: &Run) {
         let mut want: Vec<(Prof, String, RRes)> = Vec::new();
         for p in PROFS {
             for s in inputs {
-                want.push((p, s.to_string(), imp_enforce(p, s)));
+                want.push((p, s.to_string(), guard(|| imp_enforce(p, s)).unwrap_or_else(|pn| Ok(format!("<<panic: {pn}>>")))));
             }
         }
         let want = std::sync::Arc::new(want);
